@@ -85,7 +85,8 @@ def run(R):
               "or in one call with an attainable request for a second row (array or list, batch_size 1/2/'full'): the call may refuse (raise; registered state unchanged), but whatever it RETURNS must be "
               "in bounds with every row's total inside its L1 window. Two thirds of the systems get one more call at the end of the history: all targets "
               "(plus possibly a third one) in ONE call with batch_size 2, 3 or 'full' (batches that divide the rows, a padded last batch, a batch larger than the row count; "
-              "in- and out-of-gamut rows share a batch; one l2_eps, L1 none or one request per row; Fortran/strided target arrays) -- every row of the answer is judged like a single call. For every row: the attainable error is the "
+              "in- and out-of-gamut rows share a batch; one l2_eps, L1 none or one request per row; Fortran/strided target arrays) -- every row of the answer is judged like a single call. Every other underdetermined system ends its history with a BRIGHTNESS SERIES: the same in-gamut target listed 2-3 times in one call, every row with its own L1 request "
+              "(array or list; the requests spread over the totals the target admits within the bounds, at least 0.05 apart; batch_size 1, 2 or 'full'); every row is judged like a single call with its own request. For every row: the attainable error is the "
               "exact bounded-LS optimum (Lean-verified KKT); dreye's answer must stay within l2_eps of it, inside the L1 window, "
               "report B_var = eps x^2 exactly, and carry a certificate var(x) <= var(y) + delta for EVERY y of the second-stage set "
               "(theorem minvar_opt_of_cert). Non-trivial: every row (the variance objective is never trivially optimal).")
@@ -191,7 +192,10 @@ def run(R):
         border = [int(j) for j in brng.permutation(len(btargets))]      # row j of the batch is target border[j]
         bkeys = ["s%d_b%d" % (si, j) for j in range(len(btargets))]
         ukey = "s%d_u" % si
-        if not any(R.want(k) for k in keys + bkeys + [ukey]):
+        srng = R.rng(8, si)           # stream of the brightness series (last step of the history, see below)
+        nrep = int(srng.integers(2, 4))
+        skeys = ["s%d_r%d" % (si, j) for j in range(nrep)]
+        if not any(R.want(k) for k in keys + bkeys + [ukey] + skeys):
             continue
         # ONE estimator (and one caller-held variance array) per system: the targets are fitted one after the other on it,
         # as a user's session would; the property has to hold for every call of such a history, not only for the first
@@ -347,7 +351,68 @@ def run(R):
                     if np.any(np.abs(tot - L1u) > l1eps * 1.01 + 1e-7):
                         R.failB(dict(cu, impl=Xu, totals=tot), "returned intensities have total intensity %s, requested %s +- %g (a request that cannot be met with the required "
                                 "fit quality may be refused, not ignored)" % (tot.tolist(), L1u.tolist(), l1eps), "C09:unattainable-L1:l1-window")
+        # ---- a brightness series (own random stream, every other underdetermined system; LAST step of the history): the SAME in-gamut target
+        # listed two or three times in ONE call, every row with its OWN total-intensity request (an array / list with one request per row), the
+        # requests spread over the totals the target admits within the bounds (range found with an LP; requests at least 0.05 apart and at least an
+        # eighth of the range away from its ends, so that every row's second-stage set is non-empty), batch_size 1, 2 or 'full'. Every row of the
+        # answer is judged like a single call with its own request.
+        def brightness_series():
+            if ns <= nf or si % 2 != 0 or not any(R.want(k_) for k_ in skeys):
+                return
+            from scipy.optimize import linprog
+            xt0, b0 = rows_of[0]
+            tot = []
+            for sgn in (1.0, -1.0):
+                res = linprog(sgn * np.ones(ns), A_eq=Ap, b_eq=b0 - bp, bounds=list(zip(lb, ub)), method="highs")
+                tot.append(float(np.sum(res.x)) if res.status == 0 else float(np.sum(xt0)))
+            smin, smax = min(tot), max(tot)
+            fr = np.sort(srng.permutation(7)[:nrep] + 1) / 8.0
+            L1s = np.round((smin + fr * (smax - smin)) * 1024) / 1024
+            if srng.integers(2):
+                L1s = L1s[::-1].copy()
+            distinct = bool(np.min(np.abs(np.diff(L1s))) >= 0.05)
+            if not distinct:
+                L1s = np.full(nrep, float(np.sum(xt0)))     # the target admits (almost) one total only: the same request for every row
+            R.count("brightness series (one target, one L1 request per row):%d rows, %s" % (nrep, "distinct requests" if distinct else "one total attainable"))
+            Bs = np.array([b0] * nrep)
+            bss = [1, 2, "full"][int(srng.integers(3))]
+            l2s = float(srng.choice([1e-4, 1e-3, 1e-2]))
+            L1g = L1s.tolist() if srng.integers(3) == 0 else L1s.copy()
+            R.count("brightness series:batch_size=%s, L1 as %s" % (bss, "list" if isinstance(L1g, list) else "array"))
+            Bsg = as_given(srng, Bs.copy(), R, "B(series)", kinds=("same", "fortran", "strided"))
+            bkw_ = {} if bss == 1 else dict(batch_size=bss)
+            if via == "estimator":
+                if stE != "ok":
+                    sts, outs_ = stE, outE
+                else:
+                    kw = dict(Epsilon=Eps_given) if route == "argument" else {}
+                    sts, outs_ = call(est.minimize_variance, Bsg, l2_eps=l2s, L1=L1g, l1_eps=l1eps, **bkw_, **kw)
+            else:
+                ea = "heteroscedastic" if route == "string" else Eps_given
+                sts, outs_ = call(lsq_linear_minimize, A_given, Bsg, ea, lb=lb, ub=ub, W=w, K=K, baseline=base, l2_eps=l2s, L1=L1g, l1_eps=l1eps, return_pred=True, **bkw_)
+            if sts == "ok":
+                try:
+                    outs_ = [np.asarray(o, dtype=float) for o in outs_]
+                    if len(outs_) != 3 or outs_[0].shape != (nrep, ns) or outs_[1].shape != (nrep, nf) or outs_[2].shape != (nrep, nf):
+                        sts, outs_ = "shape", "answer of the series call has shapes %s for %d rows" % ([o.shape for o in outs_], nrep)
+                except Exception as e_:  # noqa: BLE001
+                    sts, outs_ = "shape", "answer of the series call is not three arrays: %s" % e_
+            fit0 = call(lsq_linear, A, b0[None], lb=lb, ub=ub, W=w, K=K, baseline=base, return_pred=True)
+            for j in range(nrep):
+                if not R.want(skeys[j]):
+                    continue
+                cs = dict(k=skeys[j], target="inside", nf=nf, ns=ns, A=A, K=K, K_kind=kk, baseline=base, baseline_kind=bk, lb=lb, ub=ub, w=w, b=b0, eps_kind=ek,
+                          Epsilon=Eps, eps_route=route, l2_eps=l2s, L1=float(L1s[j]), l1_eps=l1eps, via=via, call_index=len(targets) + 1, earlier_calls=keys,
+                          batch=dict(row=j, rows=nrep, batch_size=bss, layout="brightness series: one target, one L1 request per row", B=Bs, L1=L1s, kinds=["inside"] * nrep,
+                                     attainable_totals=[smin, smax]))
+                if fd is not None:
+                    cs["registered_on_two_grids"] = fd_pub
+                if sts == "ok" and via == "estimator" and route in ("uncertainty", "uncertainty-samples", "registered"):
+                    cs["estimator_Epsilon"] = np.array(est.Epsilon, dtype=float)
+                add_job(cs, sts, (tuple(o[j:j + 1] for o in outs_) if sts == "ok" else outs_), b0, *fit0)
+
         if not batched or not any(R.want(k) for k in bkeys):
+            brightness_series()
             continue
         # ---- the batched call
         nb = len(btargets)
@@ -397,6 +462,7 @@ def run(R):
             if st == "ok" and via == "estimator" and route in ("uncertainty", "uncertainty-samples", "registered"):
                 c["estimator_Epsilon"] = np.array(est.Epsilon, dtype=float)
             add_job(c, st, (tuple(o[j:j + 1] for o in outs) if st == "ok" else out), Ball[j], *fits0[j])
+        brightness_series()
     # systems registered on two grids: the Lean model of the domain equalisation (C19) interpolates filters / standard deviations / sources
     # onto the common domain ...
     for si_, fd_, A_, Eps_ in fdchecks:
